@@ -175,7 +175,12 @@ def gen_schema(rng):
     ref = lambda t: {"$ref": "#"} if t == "#" else {"$ref": "#/definitions/" + t}
     def member():
         t = rng.choice(names + (["#", "#"] if has_root else []))
-        k = rng.choice(["direct", "optional", "nullable_oneof", "nullable_anyof", "tuple", "fixed", "vec", "map", "set", "alias", "inline"])
+        k = rng.choice(["direct", "optional", "nullable_oneof", "nullable_anyof", "tuple", "fixed", "vec", "map", "set", "alias", "inline", "xrust"])
+        if k == "xrust":
+            # the member also names a Rust type through the x-rust-type extension; the crate (std) is not enabled in these
+            # settings, so the schema decides and the cycle has to be cut as for any other nullable member
+            return {"oneOf": [ref(t), {"type": "null"}], "x-rust-type": {"crate": "std", "version": "1.0.0", "path": "std::option::Option",
+                                                                        "parameters": [ref(t)]}}, rng.random() < .5
         if k in ("direct", "optional"): return ref(t), k == "direct"
         if k == "nullable_oneof": return {"oneOf": [ref(t), {"type": "null"}]}, rng.random() < .5
         if k == "nullable_anyof": return {"anyOf": [ref(t), {"type": "null"}]}, rng.random() < .5
@@ -234,7 +239,7 @@ def canon(orig, res):
             t = res.get(c)
             cs.append("B%d" % t["id"] if t is not None and t["kind"] == "box" else str(c))
         out.append("%d:%s[%s]" % (i, shape(n), ",".join(cs)))
-    new = sorted((res[i]["id"] if res[i]["kind"] == "box" else "?%s" % res[i]["kind"]) for i in res if i not in orig)
+    new = sorted(((res[i]["id"] if res[i]["kind"] == "box" else "?%s" % res[i]["kind"]) for i in res if i not in orig), key=str)
     return ";".join(out) + " new=%s" % new
 
 def reachable(nodes, roots):
